@@ -359,6 +359,9 @@ func (m *Model) valid(sn any, v any, p Pos) Verdict {
 		}
 	}
 	if all, ok := s["allOf"].([]any); ok {
+		if m.dev("ALLOF_FIRST_WINS") {
+			all = m.firstWins(all, p.File)
+		}
 		for i, b := range all {
 			bp := p
 			bp.UnionDeclared = union
@@ -1012,4 +1015,67 @@ func (m *Model) sizedUint8(sn any, file string) bool {
 		}
 	}
 	return lo != nil && hi != nil && lo.Sign() >= 0 && hi.Cmp(big.NewRat(255, 1)) <= 0
+}
+
+// firstWins emulates the merge of allOf branches in the current implementation: when two branches give the same property
+// the same keyword, the value of the earlier branch is kept and the later one is dropped (keywords whose earlier value is
+// the zero value are overwritten).
+func (m *Model) firstWins(branches []any, file string) []any {
+	resolved := make([]map[string]any, len(branches))
+	for i, b := range branches {
+		bm, _ := b.(map[string]any)
+		if ref, ok := bm["$ref"].(string); ok {
+			if t, _, err := m.Resolve(ref, file); err == nil {
+				bm, _ = t.(map[string]any)
+			}
+		}
+		resolved[i] = bm
+	}
+	out := make([]any, len(branches))
+	seen := map[string]map[string]bool{} // property -> keywords already given by an earlier branch
+	for i, bm := range resolved {
+		props, _ := bm["properties"].(map[string]any)
+		if props == nil {
+			out[i] = branches[i]
+			continue
+		}
+		cp := map[string]any{}
+		for k, v := range bm {
+			cp[k] = v
+		}
+		np := map[string]any{}
+		changed := false
+		for name, ps := range props {
+			pm, ok := ps.(map[string]any)
+			if !ok {
+				np[name] = ps
+				continue
+			}
+			if seen[name] == nil {
+				seen[name] = map[string]bool{}
+			}
+			q := map[string]any{}
+			for kw, val := range pm {
+				if seen[name][kw] && kw != "type" {
+					changed = true
+					continue
+				}
+				q[kw] = val
+			}
+			for kw, val := range pm {
+				if r, ok := jsonv.Rat(val); ok && r.Sign() == 0 {
+					continue // a zero value counts as "not set" for the merge
+				}
+				seen[name][kw] = true
+			}
+			np[name] = q
+		}
+		cp["properties"] = np
+		delete(cp, "$ref")
+		if changed {
+			m.fire("ALLOF_FIRST_WINS")
+		}
+		out[i] = cp
+	}
+	return out
 }
